@@ -350,6 +350,20 @@ def main():
     for m in mismatches:
         inconclusive.append("vacuity witness did not replay natively: %s" % json.dumps(m))
 
+    scan_sites = None
+    if conf.get("scan"):
+        r = subprocess.run([GOSYM, "scan", "-repo", REPO, "-harness-dir", HARNESS_DIR, "-tags", tagsets[0]], env=GOENV, capture_output=True, text=True)
+        try:
+            scan_sites = json.loads(r.stdout)
+        except Exception:
+            inconclusive.append("nondeterminism site scan failed: " + r.stderr[-500:])
+            scan_sites = []
+        for st in scan_sites:
+            if st["kind"] == "map-range" and st["func"] not in funcs:
+                inconclusive.append("map-range site %s (%s) is not executed by any harness of this property" % (st["func"], st["pos"]))
+            if st["kind"] in ("go", "select", "pointer-to-integer") or st["kind"].startswith("call math/rand") or st["kind"].startswith("call crypto/rand"):
+                inconclusive.append("unmodelled source of run-to-run variation in the library: %s in %s (%s)" % (st["kind"], st["func"], st["pos"]))
+
     wall = time.time() - t0
     level = conf.get("level", "model_checking")
     cov = {
@@ -370,6 +384,7 @@ def main():
         "stubs": propconf.STUBS,
         "samples": samples[:12] or [{"note": "no non-trivial obligation"}],
         "known_findings_hit": sorted(known_hits),
+        "nondeterminism_sites_scanned": scan_sites,
         "inconclusive": inconclusive, "errors": errors,
         "solver": "z3 4.8.12 (z3 -in, push/pop); thorough tier cross-checks with z3-new and cvc5 via tools/xcheck.py",
         "exhaustive": False,
